@@ -264,6 +264,17 @@ class Models:
         self.ex.use('A-NUMPY:list(set) enumerates without repetition')
         return st.alloc(L)
 
+    def dict_keys_list(self, D, st):
+        """the iteration order of a dict value: ONE enumeration of its key set per dict state (a dict value is immutable here; an update
+        creates a new SDict and, unless it only overwrites an existing key, a new unknown order).  list(d), d.items(), `for k in d` all
+        use it, so a loop over d.items() and a specification over list(d) speak about the same order."""
+        L = getattr(D, 'enum', None)
+        if L is None:
+            L = st.deref(self.list_of_set(D.dom, st))
+            D.enum = L
+            self.ex.use('A-NUMPY:iteration order of a dict is a fixed enumeration of its keys for as long as the dict is not modified')
+        return st.alloc(SList(L.n, L.get, L.elem))
+
     def list_getitem(self, L, idx, st, node):
         if tag(idx) == 'slice':
             _, lo, hi, step = idx
